@@ -14,6 +14,17 @@ def arrconst_item(line):
     kv = kvs(line)
     pos = kv.get("pos", "const")
     form = kv["form"]
+    if kv.get("op") == "hygiene":
+        # the element expression is the caller's own constant / variable `name`
+        name = kv["name"]
+        decl = ("const %s: u64 = 7;" % name) if name.upper() == name else ("let %s = 7u64;" % name)
+        box = kv.get("box") == "1"
+        mac = "box_arr" if box else "arr"
+        inv = {"repty": "%s![%s; U3]" % (mac, name), "repconst": "%s![%s; 3]" % (mac, name),
+               "list": "%s![%s, %s, %s]" % (mac, name, name, name)}[form]
+        ty = "Box<GenericArray<u64, U3>>" if box else "GenericArray<u64, U3>"
+        return ("pub fn check() -> bool {\n    use generic_array::box_arr;\n    #[allow(non_upper_case_globals, unused_variables, dead_code)]\n    %s\n"
+                "    let a: %s = %s;\n    a.as_slice() == &[7u64; 3]\n}") % (decl, ty, inv)
     if form == "list":
         k, tr = int(kv["k"]), int(kv.get("trail", 0))
         body = ", ".join("%du64" % (1000 + 7 * i) for i in range(k)) + "," * tr
@@ -67,6 +78,21 @@ TYS = {
 }
 
 
+# direct `const_transmute` calls: (A, B, value, check of X (const) against y (run time), size A, size B, align A, align B)
+XMUTE = [
+    ("[u8; 4]", "u32", "[1, 2, 3, 4]", "X == y && X == u32::from_ne_bytes([1, 2, 3, 4])", 4, 4, 1, 4),
+    ("[u16; 2]", "u32", "[1, 2]", "X == y", 4, 4, 2, 4),
+    ("GenericArray<u8, U8>", "GenericArray<u32, U2>", "GenericArray::<u8, U8>::from_array([1, 2, 3, 4, 5, 6, 7, 8])", "X == y && X[0] == u32::from_ne_bytes([1, 2, 3, 4])", 8, 8, 1, 4),
+    ("u32", "[u8; 4]", "0x01020304u32", "X == y && X == 0x01020304u32.to_ne_bytes()", 4, 4, 4, 1),
+    ("[u8; 8]", "u64", "[1, 2, 3, 4, 5, 6, 7, 8]", "X == y", 8, 8, 1, 8),
+    ("[u8; 16]", "u128", "[7; 16]", "X == y", 16, 16, 1, 16),
+    ("GenericArray<u8, U3>", "[u8; 3]", "GenericArray::<u8, U3>::from_array([9, 8, 7])", "X == y && X == [9, 8, 7]", 3, 3, 1, 1),
+    ("[u8; 4]", "[u8; 2]", "[1, 2, 3, 4]", "X == y", 4, 2, 1, 1),
+    ("[u8; 2]", "u32", "[1, 2]", "X == y", 2, 4, 1, 4),
+    ("()", "[u32; 0]", "()", "X == y", 0, 0, 1, 4),
+]
+
+
 def lit(ty, lo, count):
     return "[" + ", ".join(TYS[ty][1](lo + i) for i in range(count)) + "]"
 
@@ -84,6 +110,12 @@ def constapi_item(line):
     GT = "GenericArray<%s, U%d>" % (T, n)
     D = "const D: [%s; %d] = %s;\n" % (T, ln, lit(ty, 0, ln))
     V = "const V: [%s; %d] = %s;\n" % (T, ln, lit(ty, 100, ln))
+    if fn == "const_transmute":
+        A, B, val, want = XMUTE[int(kv["pair"])][:4]
+        code = ("const X: %s = unsafe { generic_array::const_transmute::<%s, %s>(%s) };\n"
+                "pub fn check() -> bool { let y: %s = unsafe { generic_array::const_transmute::<%s, %s>(%s) }; %s }") % (
+            B, A, B, val, B, A, B, val, want)
+        return code, ("accept" if int(kv["sa"]) == int(kv["sb"]) else "panic")
     if fn == "len":
         return "const L: usize = %s::len();\npub fn check() -> bool { L == %d && %s::len() == %d }" % (GA, n, GA, n), "accept"
     if fn == "chunks_from_slice":
